@@ -94,7 +94,7 @@ def _build(rng):
             recs.append([off, _payload(rng, n)])
         prev_end = off + n
     return {"t": "good", "records": recs, "delta": delta, "form": rng.choice(["lit", "zero-minus", "neg"]),
-            "place": rng.choice(["top", "block", "between", "scope", "loop", "macro"])}
+            "place": rng.choice(["top", "block", "between", "scope", "loop", "macro", "reassigned"])}
 
 
 def strategy(tier):
@@ -194,6 +194,10 @@ def _program(place, delta_text):
     if place == "loop":
         # the same directive expanded three times with a delta that depends on the loop variable
         return HOST_PRE + f".for i_d := 0, 3 {{\n.include_ips 'p.ips', {delta_text} + i_d * 0x{LOOP_STEP:x}\n}}\n" + HOST_POST
+    if place == "reassigned":
+        # the delta comes from a := symbol that is assigned again right after the directive (a running base): the directive
+        # uses the value the symbol has where it stands
+        return HOST_PRE + f"k_base := {delta_text}\n.include_ips 'p.ips', k_base\nk_base := k_base + 0x{LOOP_STEP:x}\n.include_ips 'p.ips', k_base\nk_base := 0\n" + HOST_POST
     if place == "macro":
         return HOST_PRE + f".macro m_ips(p_d) {{\n.include_ips 'p.ips', p_d\n}}\nm_ips({delta_text})\nm_ips({delta_text} + 0x{LOOP_STEP:x})\n" + HOST_POST
     if place == "top":
@@ -277,7 +281,7 @@ def run_case(case) -> Outcome:
     if any(off == ips.EOF_OFFSET for off, _ in recs):
         return Outcome(skip="record at the EOF marker offset (ambiguous)")
     blob = ips.build(recs)
-    reps = {"loop": [0, LOOP_STEP, 2 * LOOP_STEP], "macro": [0, LOOP_STEP]}.get(case["place"], [0])
+    reps = {"loop": [0, LOOP_STEP, 2 * LOOP_STEP], "macro": [0, LOOP_STEP], "reassigned": [0, LOOP_STEP]}.get(case["place"], [0])
     expected = [(off + delta + extra, (bytes([p[0]]) * p[1]) if isinstance(p, tuple) else p) for extra in reps for off, p in recs]
     if any(o < 0 or _near_host(o, len(d)) or o + len(d) > 1 << 24 for o, d in expected):
         return Outcome(skip="offset+delta outside the generated domain")
